@@ -78,7 +78,18 @@ pub fn block(payload: &[u8], pad: usize) -> Vec<u8> {
 /// free of separators and newlines
 pub fn plain_literal(rng: &mut Rng, p: P) -> Vec<u8> {
     if let Some((lo, hi)) = int_range(p) {
-        return dec_in(rng, lo, hi);
+        let d = dec_in(rng, lo, hi);
+        // one integer in eight is written in #H / #Q / #B notation (non-negative values)
+        if rng.chance(1, 8) {
+            if let Ok(v) = std::str::from_utf8(&d).unwrap_or("x").parse::<u128>() {
+                return match rng.below(3) {
+                    0 => format!("#H{v:X}").into_bytes(),
+                    1 => format!("#Q{v:o}").into_bytes(),
+                    _ => format!("#B{v:b}").into_bytes(),
+                };
+            }
+        }
+        return d;
     }
     match p {
         P::F32 | P::F64 => rng.pick(FLOATS).as_bytes().to_vec(),
@@ -294,7 +305,7 @@ pub struct MsgOpts {
 pub fn valid_msg(rng: &mut Rng, m: &Model, o: &MsgOpts) -> Msg {
     if o.blank && rng.chance(1, 10) {
         let lead = if rng.chance(1, 2) { vec![] } else { vec![b' '; rng.range(1, 3)] };
-        return Msg { units: vec![], semi: false, lead };
+        return Msg { units: vec![], semi: false, lead, trail: vec![] };
     }
     let n = rng.range(1, o.max_units);
     let mut units = Vec::new();
@@ -307,7 +318,9 @@ pub fn valid_msg(rng: &mut Rng, m: &Model, o: &MsgOpts) -> Msg {
     }
     // white space in front of the first unit is allowed (and skipped) by the syntax
     let lead = if o.blank && rng.chance(1, 8) { vec![*rng.pick(b" \t"); rng.range(1, 3)] } else { vec![] };
-    Msg { units, semi: o.blank && rng.chance(1, 8), lead }
+    // ... and so is white space in front of the terminator (the CR of CR LF among it)
+    let trail: Vec<u8> = if o.blank && rng.chance(1, 10) { rng.pick(&[&b"\r"[..], b" ", b" \r", b"\t"]).to_vec() } else { vec![] };
+    Msg { units, semi: o.blank && rng.chance(1, 8), lead, trail }
 }
 
 // ------------------------------------------------------------------ faults
@@ -365,7 +378,13 @@ pub fn make_faulty(rng: &mut Rng, m: &Model, ctx: &[String], u: &Unit, kind: u8)
         }
         fault::UNDEFINED => {
             if u.is_common() {
-                f.mnems = vec!["*NOPE".into()];
+                if rng.chance(1, 2) && !declared(m, &u.mnems, !u.query) {
+                    // the other kind of an existing common command (*RST? / *IDN)
+                    f.query = !u.query;
+                    f.args.clear();
+                } else {
+                    f.mnems = vec!["*NOPE".into()];
+                }
             } else {
                 let full = full_header(ctx, u);
                 // the variants that depend on what the header resolves to are only used
